@@ -468,7 +468,10 @@ def run_case(case, ctx):
         return
     if not torch.is_tensor(val):
         val = torch.as_tensor(val, dtype=dt)
-    val = val.reshape(()) if val.numel() == 1 else val
+    if val.numel() != 1:
+        ctx.viol('expr/%s/clause=value-is-not-a-scalar' % _top(case['expr']), '%s: the scalar expression evaluated to a tensor of shape %s' % (what, list(val.shape)))
+        return
+    val = val.reshape(())
     ref = eval_dense(case['expr'], E)
     # roundoff is relative to the size of the terms that are added up, not to the (possibly cancelling) result: evaluate the same dense
     # expression without cancellation (absolute values everywhere, '-' -> '+') to get that size and its derivative w.r.t. every leaf
